@@ -8,7 +8,7 @@ namespace Fadl
 theorem step_appends (st : St) (op : Op) :
     ∃ cells news, (step st op).heap = st.heap ++ cells ∧ (step st op).streams = st.streams ++ news := by
   cases op with
-  | dataset ty => exact ⟨_, _, rfl, rfl⟩
+  | dataset ty dargs => exact ⟨_, _, rfl, rfl⟩
   | derive s op args ty =>
     simp only [step]
     cases st.streams[s]? with
@@ -87,9 +87,9 @@ theorem siblings_independent (ops more : List Op)
 /-- Non-vacuity: a concrete history (two datasets, a branch, a QMetaData, executions) satisfies the
     hypotheses, so the theorem applies to it. -/
 example :
-    let ops := [Op.dataset "E", .derive 0 "Select" [.lam ["e"] (.name "e")] "E"]
+    let ops := [Op.dataset "E" [], .derive 0 "Select" [.lam ["e"] (.name "e")] "E"]
     let more := [Op.qmeta 1 [("k", .int 1)], .derive 1 "Where" [.lam ["e"] (.const (.bool true))] "E",
-                 .dataset "F", .value 2 none none, .derive 1 "MetaData" [.dict [] []] "E", .value 3 none none]
+                 .dataset "F" [.const (.str "hi")], .value 2 none none, .derive 1 "MetaData" [.dict [] []] "E", .value 3 none none]
     (∀ op ∈ ops, op.wf = true) ∧ (∀ op ∈ more, op.wf = true) ∧ (run ops).streams.length = 2 := by
   refine ⟨by decide, by decide, by decide⟩
 
